@@ -120,7 +120,10 @@ func equal(v1, v2 reflect.Value, ulp uint) bool {
 				return false
 			}
 		case reflect.Ptr:
-			if !equal(reflect.Indirect(f1), reflect.Indirect(f2), ulp) {
+			if f1.IsNil() != f2.IsNil() {
+				return false
+			}
+			if !f1.IsNil() && !equal(reflect.Indirect(f1), reflect.Indirect(f2), ulp) {
 				return false
 			}
 		case reflect.String:
@@ -128,6 +131,9 @@ func equal(v1, v2 reflect.Value, ulp uint) bool {
 				return false
 			}
 		case reflect.Slice:
+			if f1.Len() != f2.Len() {
+				return false
+			}
 			for i := 0; i < f1.Len(); i++ {
 				if !scalar.EqualWithinULP(f1.Index(i).Float(), f2.Index(i).Float(), ulp) {
 					return false
